@@ -1,0 +1,37 @@
+//go:build verif
+
+package command
+
+// Contracts for govc (see /verif/DESIGN.md). Comment-only file: no executable code.
+
+//@ define pidOf(c *CmdWrapper) int = c.cmd.Process.Pid
+
+//@ func (c *CmdWrapper) Pid
+//@   ensures result == pidOf(c)
+//@   assigns nothing
+
+// C06: the signal that is delivered, and to whom.
+//@ func (c *CmdWrapper) Stop
+//@   let eff = ite(sig >= 1 && sig <= 31, sig, 15)
+//@   ensures nocmd: c.cmd == nil ==> kills() == old(kills()) && procSignals() == old(procSignals()) && result == nil
+//@   ensures parent: c.cmd != nil && parentOnly ==> procSignals() == old(procSignals()) + 1 && lastProcSignal() == eff && kills() == old(kills())
+//@   ensures group: c.cmd != nil && !parentOnly && getpgidOk(pidOf(c)) ==> kills() == old(kills()) + 1 && lastKillSig() == eff && lastKillPid() == 0 - pgidOf(pidOf(c)) && procSignals() == old(procSignals())
+//@   ensures nogroup: c.cmd != nil && !parentOnly && !getpgidOk(pidOf(c)) ==> kills() == old(kills()) && procSignals() == old(procSignals()) && result != nil
+//@   assigns kills(), lastKillPid(), lastKillSig(), procSignals(), lastProcSignal()
+
+//@ func (c *CmdWrapper) SetCmdArgs
+//@   ensures c.cmd.SysProcAttr != nil && c.cmd.SysProcAttr.Setpgid
+//@   assigns c.cmd.SysProcAttr
+
+//@ func (c *CmdWrapper) SetEnv
+//@   ensures c.cmd.Env == env
+//@   assigns c.cmd.Env
+//@ func (c *CmdWrapper) SetDir
+//@   ensures c.cmd.Dir == dir
+//@   assigns c.cmd.Dir
+//@ func (c *CmdWrapper) Run
+//@   ensures runs() == old(runs()) + 1 && ranEnv() == c.cmd.Env && ranDir() == c.cmd.Dir
+//@   assigns runs(), ranEnv(), ranDir()
+//@ func BuildCommandShellArgContext
+//@   ensures result != nil && fresh(result) && result.cmd != nil && fresh(result.cmd)
+//@   assigns nothing
